@@ -86,7 +86,7 @@ def run_case(case, sb):
     any_errors = any(r["errors"] for r in ref)
     if any_errors:
         labels.append("with-errors")
-    ref_ids = [[ln[0] for ln in r["lines"]] for r in ref]
+    ref_ids = [[(ln[0] if ln else None) for ln in r["lines"]] for r in ref]
     to_end = all(m["scan"].endswith("*") for m in members)
     file_ids = [r[0] for r in records if r]
     union = [i for i in file_ids if any(i in ids for ids in ref_ids)]
